@@ -12,7 +12,7 @@ THEOREMS = ["OdeVerif.C01.assemble_ok_linear", "OdeVerif.C01.flow_identity", "Od
             "OdeVerif.MatrixFlow.P_zero", "OdeVerif.MatrixFlow.P_add", "OdeVerif.MatrixFlow.flow_unique", "OdeVerif.MatrixFlow.P_col_zero"]
 LEVEL = "proof"
 LINEAR_SHAPES = ["isolated", "chain", "fan_in", "fan_out", "cycle", "antisym", "nonadjacent", "offset_single", "offset_in_group", "depends_on_offset",
-                 "higher_order", "higher_order_offset", "analytic_dep_numeric", "dense3"]
+                 "higher_order", "higher_order_offset", "analytic_dep_numeric", "dense3", "const_drift", "offset_single", "chain_from_offset"]
 
 
 def gen(ctx, n):
